@@ -427,6 +427,10 @@ for _d, _spec in DISTS.items():
 def split_lanes(site):
     name = (site["name"] or "").lower().replace("_", "")
     ev, pev = _GJ2EVENT.get(name, ((), None))
+    if ev:
+        # event size follows the site's own parameters (loc / concentration), not the table default
+        a0 = site["args"][0] if site["args"] else site["kwargs"].get("loc", site["kwargs"].get("concentration"))
+        ev = (int(np.shape(a0)[-1]),)
     val = np.asarray(site["value"])
     lead = val.shape[: val.ndim - len(ev)]
     nl = int(np.prod(lead)) if lead else 1
@@ -467,6 +471,8 @@ def split_lanes(site):
 def _kw_rank(name, kw):
     if kw is None:
         return 0
+    if name == "categorical":
+        return 1
     if name == "multivariatenormal":
         return {"loc": 1, "covariance_matrix": 2}.get(kw, 0)
     if name == "dirichlet":
